@@ -64,7 +64,8 @@ Work(w) ==
            /\ IF e = terr THEN wres' = [wres EXCEPT ![w] = "err"] /\ UNCHANGED applied
               ELSE applied' = applied \cup {e} /\ UNCHANGED wres
      \/ /\ wpipe[w] = <<>> /\ closed /\ wres' = [wres EXCEPT ![w] = "nil"] /\ UNCHANGED <<wpipe, applied>>
-     \/ /\ ictx /\ wres' = [wres EXCEPT ![w] = IF FixCancel THEN "err" ELSE "nil"] /\ UNCHANGED <<wpipe, applied>>
+     \* rdbReplay returns nil when the replay context is done (queued entries are dropped)
+     \/ /\ ictx /\ wres' = [wres EXCEPT ![w] = "nil"] /\ UNCHANGED <<wpipe, applied>>
   /\ UNCHANGED <<parsed, perr, rdbPipe, closed, dist, terr, cancelled, ictx, ret>>
 
 \* the collector cancels the inner context at the first non-nil result
@@ -75,11 +76,16 @@ Cancel == /\ ~cancelled /\ ret = "run" /\ cancelled' = TRUE /\ ictx' = TRUE
 
 Collect ==
   /\ ret = "run" /\ dist # "run" /\ \A w \in Workers : wres[w] # "run"
-  /\ ret' = IF dist = "err" \/ \E w \in Workers : wres[w] = "err" THEN "error" ELSE "ok"
+  \* sendRdb: any error => error; (fix) parent context cancelled => interrupted, no checkpoint
+  /\ ret' = IF dist = "err" \/ \E w \in Workers : wres[w] = "err" THEN "error"
+            ELSE IF FixCancel /\ cancelled THEN "error" ELSE "ok"
   /\ UNCHANGED <<parsed, perr, rdbPipe, wpipe, closed, dist, wres, terr, applied, cancelled, ictx>>
 
 Next == Parse \/ Distribute \/ (\E w \in Workers : Work(w)) \/ ErrCancel \/ Cancel \/ Collect
 Spec == Init /\ [][Next]_vars
 
 C04_CheckpointImpliesComplete == ret = "ok" => applied = Entries
+\* without faults the replay completes with every entry applied exactly by its key's worker
+C03_NoFaultCompletes == (ret = "ok") => (\A e \in Entries : e \in applied)
+TypeOK == ret \in {"run", "ok", "error"} /\ applied \subseteq Entries
 =============================================================================
